@@ -118,6 +118,15 @@ CHECKS["C07"] = dict(
           "kernel/diagonal are covered by correspondence + oracles (partial)."),
     design="6/C07", technique="Coq proof over R + in-Coq certificate check of the implementation's solution + formula-level kernel model")
 
+CHECKS["C08"] = dict(
+    text=("Theorems over R, for every sparse solver meeting the contract: whenever the solver returns, the geodesic function (triangle and "
+          "tetra; one model for the generic and the triangle-specific entry point since the mass is replaced by the identity) satisfies "
+          "A g = div(grad f/|grad f|) at every vertex, is >= 0 and attains 0; the rotated function is 0 at vertex 0 and satisfies "
+          "A r = div(n x grad f) at every other vertex. The right-hand sides are the C06 operators. The implementation's outputs are "
+          "verified against these systems inside Coq (certificate check). Exactness for affine f / quarter-turn gradients are decided by "
+          "oracles on flat oriented meshes; termination of SuperLU on the singular system is not covered (known finding F17) (partial)."),
+    design="6/C08", technique="Coq proof parametric in the solver oracle + in-Coq certificate check")
+
 NOT_YET = {}
 
 
